@@ -218,6 +218,16 @@ func (g *Group) pool(r *Rng, nRandom int) []*testPoint {
 	for i := 0; i < nRandom; i++ {
 		pts = append(pts, g.mkTestPoint("kG", g.MulGen(r.Below(g.C.Fr.Q)), r))
 	}
+	// the points with x = 0 (when b is a square): of order 3 on j = 0 curves, a classical blind spot of
+	// endomorphism-based subgroup tests
+	zero := reflect.New(g.CoordT)
+	if rhs := g.curveRHS(zero); method(rhs, "Legendre").Call(nil)[0].Int() == 1 {
+		y := reflect.New(g.CoordT)
+		method(y, "Sqrt").Call([]reflect.Value{rhs})
+		X0 := g.NewAff()
+		X0.Elem().Field(1).Set(y.Elem())
+		pts = append(pts, g.mkTestPoint("X0", X0, r))
+	}
 	// a point of the curve that is (in general) outside the r-torsion on cofactor curves
 	N := g.RandOnCurve(r)
 	pts = append(pts, g.mkTestPoint("N", N, r), g.mkTestPoint("-N", neg(N), r))
@@ -315,7 +325,7 @@ func runC02(args []string) {
 	if *only != "" {
 		names = strings.Split(*only, ",")
 	}
-	nRandom, nSub, reps := 1, 8, 1
+	nRandom, nSub, reps := 1, 24, 1
 	if *tier == "thorough" {
 		nRandom, nSub, reps = 4, 40, 6
 	}
